@@ -42,4 +42,8 @@ THEOREMS = [_NS + n for n in [
     "Ex2.tls13_fragmented_counterexample",
     "Ex2.tls13_fragmented_instance",
     "Ex2.tls12_displaced_instance",
+    "tls12_connection_meta_exact",
+    "tls13_connection_meta_exact",
+    "Ex2.tls12_meta_instance",
+    "Ex2.tls13_meta_instance",
 ]]
